@@ -216,6 +216,11 @@ namespace {
 
 }  // namespace
 
+//! does the convention-aware stiffness builder exist for (H, smt, c)?
+template <MH::Hypothesis H, STAC smt, OAC c>
+concept StiffnessBuilderAvailable =
+    requires { sizeof(tfel::material::internals::ComputeOrthotropicStiffnessTensor<H, smt, c>); };
+
 // ================================================================== names
 VERIF_SUB_W(names_roundtrip, 0.02) {
   const auto& r = table[c.pick(7, "hypothesis")];
@@ -443,11 +448,7 @@ VERIF_SUB(stiffness) {
   const M3 red = state(c, 3, "eps");
   // rounding: the 3x3 compliance is inverted in both evaluations, cond <= 12
   const R tol = 4096 * u * cmax;
-  // PLATE is absent here: computeOrthotropicStiffnessTensor<H,smt,PLATE> does
-  // not compile for any hypothesis (no specialisation in StiffnessTensor.ixx),
-  // which is reported by the py unit "instantiable" (a harness that does not
-  // compile decides nothing)
-  dispatch<false>(c, [&]<MH::Hypothesis HY, OAC cv>() {
+  auto body = [&]<MH::Hypothesis HY, OAC cv>() {
     tagCase<HY, cv>(c);
     constexpr auto ND = ModellingHypothesisToSpaceDimension<HY>::value;
     constexpr int n = ModellingHypothesisToStensorSize<HY>::value;
@@ -497,6 +498,25 @@ VERIF_SUB(stiffness) {
       c.close(static_cast<R>(sig[k]), eb[k], 8 * tol * ne + static_cast<R>(std::numeric_limits<T>::min()),
               std::string("C28.stiffness_response.") + (sw ? "swap23" : "identity"),
               "in-plane stress " + w + " component " + std::to_string(k));
+  };
+  // computeOrthotropicStiffnessTensor<H,smt,PLATE> has no specialisation in the
+  // unrepaired StiffnessTensor.ixx (known finding C28.instantiable.stiffness.PLATE,
+  // decided by the py unit "instantiable").  A call that does not compile cannot
+  // be written here, so the existence of the builder is probed (complete type,
+  // SFINAE friendly): when it exists the pair is checked like any other one,
+  // when it is missing the case fails (excluded and counted if the key is a listed known finding).
+  dispatch<true>(c, [&]<MH::Hypothesis HY, OAC cv>() {
+    if constexpr (StiffnessBuilderAvailable<HY, STAC::UNALTERED, cv> &&
+                  StiffnessBuilderAvailable<HY, STAC::ALTERED, cv>) {
+      body.template operator()<HY, cv>();
+    } else {
+      tagCase<HY, cv>(c);
+      c.tag("stiffness.builder_missing");
+      const std::string key = std::string("C28.instantiable.stiffness.") + cname(cv);
+      // excluded (and counted) when the key is a listed known finding, a failure otherwise
+      c.check(false, key,
+              std::string("computeOrthotropicStiffnessTensor is not instantiable for ") + row(HY).name + "/" + cname(cv));
+    }
   });
 }
 
